@@ -348,6 +348,11 @@ func (c *Ctx) hasUserMethod(t *geval.SymType, fn string) geval.Tri {
 			return geval.No
 		}
 	}
+	// the generator never looked: the property still distinguishes the two
+	// cases (o-fork: usermethod)
+	if v, ok := c.In.Path.Preds["o-fork.UserMethod("+fn+","+t.Desc+")"]; ok {
+		return v
+	}
 	return geval.Unknown
 }
 
